@@ -45,7 +45,8 @@ def cpu_budget(seconds):
         raise CpuBudgetExceeded()
 
     old = signal.signal(signal.SIGVTALRM, handler)
-    signal.setitimer(signal.ITIMER_VIRTUAL, seconds)
+    # periodic: the first expiry can be swallowed (raised inside a gc / weakref callback: 'Exception ignored in')
+    signal.setitimer(signal.ITIMER_VIRTUAL, seconds, 0.5)
     try:
         yield
     finally:
